@@ -32,6 +32,9 @@ def programs(ctx):
         v = td.variants[-1] if td.is_enum else td.variants[0]
         if placement != "variant":
             v.fields.append(F.Field("b" if v.kind == "named" else None, "u8", plain))
+        elif i % 2 == 0:
+            # explicit discriminants, partly, colliding with positions: variants are ordered by declaration position, and `==` agrees with it
+            td.discr = [[1, None, 0], [2, 0, None], [None, 3, 1]][(i // 6) % 3]
         out.append(F.build_prog("p_%04d" % i, td, want=(), laws=True))
         i += 1
     # `==` derived from a genuinely partial `partial_ord(by = ..)` (no Ord): incomparable pairs are not equal
